@@ -31,7 +31,7 @@ ASSUMPTIONS = [
 ]
 TRUSTED_BASE = ['vf/gen_hail_types.py (generator + equality)']
 SHARDS = {'quick': 1, 'thorough': 16}
-TIMEOUT = {'quick': 600, 'thorough': 1800}
+TIMEOUT = {'quick': 900, 'thorough': 1800}
 FORBIDDEN_STUBS = ('pandas',)
 FLOORS = {
     'json_roundtrips': 8000, 'saw[missing]': 5000, 'saw[nonfinite]': 1000, 'saw[negzero]': 200, 'saw[interval]': 1000, 'saw[call]': 1000, 'saw[locus]': 1000,
